@@ -42,14 +42,22 @@ def build(ctx):
 def bases(ctx, n, salt="base"):
     out = []
     for i in range(n):
-        r = vlib.rng(ctx.seed, "%s%d" % (salt, i))
-        t, g = tg.gen_program(r, size=r.randint(1, 4))
+        # programs of more than MAX_BASE_LINES lines are regenerated: the model's eager union is quadratic in the size
+        # of the type graph, and the number of plants grows with the program
+        for attempt in range(20):
+            r = vlib.rng(ctx.seed, "%s%d%s" % (salt, i, "" if attempt == 0 else "/%d" % attempt))
+            t, g = tg.gen_program(r, size=r.randint(1, 4))
+            if len(tg.render(t).split("\n")) <= MAX_BASE_LINES:
+                break
         out.append((t, g))
     return out
 
 
+MAX_BASE_LINES = 200
+
+
 def nbases(ctx):
-    return 24 if ctx.tier == "quick" else 200
+    return 24 if ctx.tier == "quick" else 100
 
 
 def render_plant(t, p):
@@ -101,7 +109,11 @@ def summarize_tie(name, recs, rule, extra_dist=None):
     nontrivial = set()
     for r in recs:
         if not r["reached"]:
-            dist["not reached by the type checker (%s)" % (r["real"][0] if r["real"] else "?")] += 1
+            why = r["real"][0] if r["real"] else "?"
+            if str(why).startswith("model-"):
+                dist["skipped: the model exceeded its per-case time limit of %.0f s (%s)" % (tg.MODEL_CASE_LIMIT, why)] += 1
+            else:
+                dist["not reached by the type checker (%s)" % why] += 1
             continue
         dist["reached"] += 1
         dist["real " + r["real"][0]] += 1
@@ -125,7 +137,7 @@ def tie(ctx):
     bs = bases(ctx, nbases(ctx))
     stats = collections.Counter()
     r = vlib.rng(ctx.seed, "c03-tie")
-    per = 40 if ctx.tier == "quick" else 80
+    per = 40 if ctx.tier == "quick" else 60
     for bi, (t, g) in enumerate(bs):
         cases.append(("base%d" % bi, tg.case_line(tg.render(t))))
         for k, v in g.stats.items():
